@@ -380,6 +380,18 @@ func (g *PredGen) likePattern(c Col) string {
 	}
 	runes := []rune(base)
 	var b strings.Builder
+	// overlapping prefix%suffix: both parts come from the same value and share
+	// characters (v = "aba" -> "ab%ba"), so a matcher that tests prefix and
+	// suffix independently accepts values that are too short
+	if len(runes) >= 1 && r.IntN(6) == 0 {
+		j := 1 + r.IntN(len(runes))
+		i := r.IntN(j)
+		pat := string(runes[:j]) + "%" + string(runes[i:])
+		if r.IntN(3) == 0 {
+			pat = string(runes[:j]) + "%" + string(runes[:j])
+		}
+		return strings.ReplaceAll(pat, "\\", "")
+	}
 	switch r.IntN(8) {
 	case 0:
 		// verbatim (metacharacters literal, existing % and _ act as wildcards)
